@@ -954,11 +954,13 @@ def run(out, ctx):
         "PSD of RBF / Matern / RQ / Periodic / PiecewisePolynomial / SpectralMixture / Arc / Cylindrical / HammingIMQ Gram matrices "
         "for all inputs (Bochner/Schoenberg; DESIGN 9.1) - proved only: symmetry, unit diagonal, |k(x,y)| <= k(x,x)",
         "PSD of derivative kernels (RBFKernelGrad, Matern52KernelGrad, PolynomialKernelGrad, RBFKernelGradGrad)",
-        "the general Schur product / Kronecker theorem (both factors arbitrary PSD); proved with one factor F diag(c) F^T",
+        "the general Schur product / Kronecker theorem over fields without square roots (Qc): proved over R for arbitrary PSD "
+        "factors (c07_product_psd, c07_kronecker_psd), over any ordered field with one factor F diag(c) F^T",
         "GridInterpolationKernel (W K W^T), AdditiveStructure / ProductStructure / NewtonGirard kernels",
         "agreement of float64 Cholesky/Lanczos/CG numerics with exact algebra (thresholds are scale-relative)",
-        "UnwhitenedVariationalStrategy's predictive covariance; for the whitened one K** - A^T A >= 0 is a hypothesis of "
-        "c07_variational_cov_psd (it is the Schur complement of the jittered prior, c07_posterior_psd)"]
+        "for the whitened variational covariance K** - A^T A >= 0 is a hypothesis of c07_variational_cov_psd (it is the "
+        "Schur complement of the jittered prior, c07_posterior_psd); the unwhitened one is proved PSD from the joint prior "
+        "(c07_unwhitened_variational_cov_psd), compared here only numerically with the implementation"]
     out.extra["not_covered"] = ["GaussianSymmetrizedKLKernel / DistributionalInputKernel (not documented as positive definite)",
                                 "MultiDeviceKernel, keops kernels (need CUDA / KeOps)", "GridKernel (inputs must be the full grid)",
                                 "kernel(x, diag=True) failures of the deprecated structure kernels are C06's subject"]
